@@ -389,3 +389,14 @@ Proof.
     rewrite (lk_reindex (vs a) (du a) (vs a) v).
     destruct (mem v (vs a)) eqn:M; auto. apply mem_false in M. apply lk_notin; auto.
 Qed.
+
+(* over R the zero-multiplier guards of the power rule are invisible: 0 * anything = 0 *)
+Lemma dpow_unguard (a : dualR) pw :
+  dpow a pw = mkDual (npow (re a) pw) (vs a) (map (fun x => nmul (nmul x pw) (npow (re a) (nsub pw n1))) (du a)).
+Proof.
+  unfold dpow. f_equal. apply map_ext. intros x. cbn [neqb n0 NumR]. unfold Reqb.
+  destruct (Req_EM_T pw 0) as [E|E]; [subst; cbn; ring|reflexivity].
+Qed.
+Lemma dpow_ref_unguard (a : dualR) pw :
+  dpow_ref a pw = mkDual (npow (re a) pw) (vs a) (map (fun x => nmul (nmul x pw) (npow (re a) (nsub pw n1))) (du a)).
+Proof. exact (dpow_unguard a pw). Qed.
